@@ -1601,6 +1601,17 @@ class H2Connection:
                     (max_open_streams, self.open_outbound_streams)
                 )
 
+        # A server opens streams with PUSH_PROMISE only: HEADERS on a stream
+        # that was never promised to us must not create one.
+        if (self.config.client_side and
+                frame.stream_id not in self.streams and
+                not self._stream_id_is_outbound(frame.stream_id) and
+                frame.stream_id > self.highest_inbound_stream_id):
+            raise ProtocolError(
+                "Received HEADERS on stream %d, which was never promised" %
+                frame.stream_id
+            )
+
         # Let's decode the headers. We handle headers as bytes internally up
         # until we hang them off the event, at which point we may optionally
         # convert them to unicode.
